@@ -45,3 +45,27 @@ class Contract(object):
     def forbid(self, ctx, name, tags=(), note=''):
         """this exit must be unreachable: obligation `False` under the path condition"""
         ctx.oblige(name, z3.BoolVal(False), kind='safety', tags=tags, note=note)
+
+
+def install_caller_hooks(ctx, cats=('shape', 'canon', 'link')):
+    """hooks a caller-side (modular) proof needs: when a loop havocs a graph whose typestate is `valid`, a fresh ghost
+    presence view and the invariant for the pairs in focus; when a new pair comes into focus, the invariant of every
+    valid graph for it"""
+    from pyvc import spec
+    ctx.inv_cats = cats
+
+    def on_havoc(gname, tag, comps=None):
+        h = ctx.graphs[gname]
+        if comps is not None and not any(c.startswith('Cell_') or c in ('S', 'E', 'Len', 'HasT') for c in comps):
+            return                  # timelines untouched: the ghost presence view stays
+        v = spec.View(gname + tag)
+        ctx.views[gname] = v
+        if h.valid:
+            spec.inv_assume(ctx, h, v, list(ctx.focus), ctx.inv_pairs(), k=2)
+
+    def on_focus(new_pairs):
+        for gname, h in ctx.graphs.items():
+            if h.valid and gname in ctx.views:
+                spec.inv_assume(ctx, h, ctx.views[gname], [p[0] for p in new_pairs], new_pairs, k=2)
+    ctx.on_havoc = on_havoc
+    ctx.on_focus = on_focus
